@@ -253,12 +253,44 @@ def run(tier):
                 diff = [k for k in got if got[k] != want[k]]
                 run_.judge({"case": common.brief(c), "threads": 16, "round_seed": j["seed"]}, "concurrent_run_differs_from_sequential",
                            {"fields": diff, "concurrent": {k: got[k] for k in diff}, "sequential": {k: want[k] for k in diff}}, kf_id=None)
-    run_.extra.update({"history_classes": classes, "line_failpoints": fp_tot, "threads": tstats,
+    # sessions of several runs overlapping on one provider object in a prescribed order (turn-based gates at session enter / exit)
+    A = "create table ov_t1 as select x, y from ov_s; insert into ov_t2 select * from ov_t1"
+    B = "create view ov_v1 as select p, q from ov_r; insert into ov_w select * from ov_v1"
+    C = "create table ov_t3 as select m from ov_n"
+    after = "insert into ov_fin select * from ov_t1; insert into ov_fin2 select * from ov_v1; insert into ov_fin3 select * from ov_t3"
+    omd = {"<default>.ov_s": ["x", "y", "z"], "<default>.ov_r": ["p", "q"]}
+    scheds = {"crossing": ({"A": A, "B": B}, ["A.enter", "A.at_exit", "B.enter", "B.at_exit", "A.exit", "B.exit"]),
+              "crossing_reversed": ({"A": A, "B": B}, ["B.enter", "B.at_exit", "A.enter", "A.at_exit", "B.exit", "A.exit"]),
+              "nested": ({"A": A, "B": B}, ["A.enter", "B.enter", "B.at_exit", "B.exit", "A.at_exit", "A.exit"]),
+              "entered_together": ({"A": A, "B": B}, ["A.enter", "B.enter", "A.at_exit", "B.at_exit", "A.exit", "B.exit"]),
+              "chain_of_three": ({"A": A, "B": B, "C": C}, ["A.enter", "A.at_exit", "B.enter", "A.exit", "B.at_exit", "C.enter", "B.exit", "C.at_exit", "C.exit"]),
+              "three_crossing": ({"A": A, "B": B, "C": C}, ["A.enter", "A.at_exit", "B.enter", "B.at_exit", "C.enter", "A.exit", "C.at_exit", "B.exit", "C.exit"])}
+    ojobs = [{"name": k, "scripts": sc, "order": od, "after": after, "metadata": omd, "dialect": d} for k, (sc, od) in scheds.items() for d in ("ansi", "non-validating")]
+    run_.need("overlap_schedules_completed")
+    with Pool(min(NCPU, len(ojobs))) as pool:
+        ores = pool.map("vlib.isolation:overlap", ojobs, timeout=600)
+    for j, (st, r) in zip(ojobs, ores):
+        b = {"overlap_schedule": j["name"], "order": j["order"], "scripts": j["scripts"], "after": j["after"], "dialect": j["dialect"]}
+        if not run_.pool_status(st, r, b):
+            run_.case()
+            continue
+        run_.case(evidence.sha(("overlap", j["name"], j["dialect"])), nontrivial=bool(r["schedule_completed"] and r["learned"]))
+        if not r["schedule_completed"]:
+            run_.inconc(f"overlap schedule {j['name']} did not complete: stuck={r['stuck']} alive={r['alive']}")
+            continue
+        run_.observe("overlap_schedules_completed")
+        run_.observe("registered_tables_checked", len(r["learned"]))
+        for bad in r["bad"]:
+            run_.judge(b, "session_not_clean_after_overlapping_runs:" + bad["what"], bad, kf_id=None)
+        if r["after_reused"] != r["after_fresh"]:
+            diff = [k for k in r["after_reused"] if r["after_reused"][k] != r["after_fresh"][k]]
+            run_.judge(b, "run_after_overlapping_runs_differs_from_fresh_provider", {"fields": diff, "reused": {k: r["after_reused"][k] for k in diff}, "fresh": {k: r["after_fresh"][k] for k in diff}}, kf_id=None)
+    run_.extra.update({"history_classes": classes, "line_failpoints": fp_tot, "threads": tstats, "overlap_schedules": sorted(scheds),
                        "fault_model": "failing statements, failing provider lookups, exceptions at line events inside analyze/register/lookup/of; "
                                       "not injected inside the cleanup path itself (MetaDataSession.__exit__/deregister): that models an asynchronous exception no context manager guards against"})
     run_.exhaustive = False
     run_.assumptions = ["the session tap sees every register/deregister/lookup", "B's fresh record is computed in a different worker process than the history",
-                        "two runs never share one provider concurrently (excluded by the property)"]
+                        "runs that share one provider concurrently are not compared with sequential runs (the property speaks of own providers); for prescribed overlaps only the state after all of them ended is judged"]
     shutil.rmtree(scratch, ignore_errors=True)
     return run_.finish()
 
@@ -273,6 +305,15 @@ def replay(path):
             st2, f = pool.call(1, "vlib.isolation:fresh", fresh_case(h), timeout=180)
         bad = st == "ok" and (r["balance"] or r["B"] != f or any(i["session_left"] for i in r["runs"]))
         print(st, r.get("balance") if r else None, "B equal" if r and r["B"] == f else "B differs")
+        if bad:
+            print(f"VIOLATION property={PID} replay={path}")
+        return 1 if bad else 0
+    if "overlap_schedule" in c:
+        with Pool(1) as pool:
+            st, r = pool.call(0, "vlib.isolation:overlap", {"scripts": c["scripts"], "order": c["order"], "after": c["after"], "dialect": c["dialect"],
+                                                           "metadata": {"<default>.ov_s": ["x", "y", "z"], "<default>.ov_r": ["p", "q"]}}, timeout=600)
+        bad = st == "ok" and r["schedule_completed"] and (r["bad"] or r["after_reused"] != r["after_fresh"])
+        print(st, r.get("bad") if r else None)
         if bad:
             print(f"VIOLATION property={PID} replay={path}")
         return 1 if bad else 0
